@@ -81,6 +81,10 @@ func (in *Interp) satInt64(d *sym.Term) *sym.Term {
 		return d
 	}
 	B := in.B
+	// usually the difference is far from saturating: let the solver confirm it
+	if in.implied(B.And(B.Le(B.Int(lo), d), B.Le(d, B.Int(hi)))) {
+		return d
+	}
 	return B.Ite(B.Lt(B.Int(hi), d), B.Int(hi), B.Ite(B.Lt(d, B.Int(lo)), B.Int(lo), d))
 }
 
